@@ -4,6 +4,7 @@ import (
 	"encoding/json"
 	"fmt"
 	"strings"
+	"sync"
 	"unicode"
 	"unicode/utf8"
 
@@ -48,21 +49,28 @@ type c06template struct {
 	ident bool   // slot is quoted with QuoteIdent (else QuoteString)
 	slot  string // generic path of the slot in the AST dump
 	query bool   // parsed with ParseQuery
+	tight bool   // no whitespace between the quoted value and its neighbours (only when the value is written in quotes)
 }
 
 var c06templates = []c06template{
-	{"where-string", "SELECT f FROM m WHERE k = ", " AND j = 'tail'", false, "SelectStatement.Condition.BinaryExpr.LHS.BinaryExpr.RHS.StringLiteral.Val", false},
-	{"field-name", "SELECT ", ", g FROM m", true, "SelectStatement.Fields[].Field.Expr.VarRef.Val", false},
-	{"measurement", "SELECT f FROM ", " WHERE a = 1", true, "SelectStatement.Sources[].Measurement.Name", false},
-	{"password", "CREATE USER u WITH PASSWORD ", " WITH ALL PRIVILEGES", false, "CreateUserStatement.Password", false},
-	{"list-member", "CREATE SUBSCRIPTION s ON d.r DESTINATIONS ALL 'x', ", ", 'y'", false, "CreateSubscriptionStatement.Destinations[]", false},
-	{"tag-key", "SHOW TAG VALUES WITH KEY = ", " WHERE a = 'b'", true, "ShowTagValuesStatement.TagKeyExpr.StringLiteral.Val", false},
-	{"alias", "SELECT f AS ", " FROM m", true, "SelectStatement.Fields[].Field.Alias", false},
-	{"database", "DROP DATABASE ", "", true, "DropDatabaseStatement.Name", false},
-	{"retention-policy-segment", "SELECT f FROM db.", ".m", true, "SelectStatement.Sources[].Measurement.RetentionPolicy", false},
-	{"query-with-tail", "SELECT f FROM m WHERE k = ", "; DROP DATABASE x", false, "Query.Statements[].SelectStatement.Condition.BinaryExpr.RHS.StringLiteral.Val", true},
-	{"call-argument", "SELECT percentile(f, ", ") FROM m", false, "SelectStatement.Fields[].Field.Expr.Call.Args[].StringLiteral.Val", false},
-	{"tz", "SELECT f FROM m WHERE k = 'v' GROUP BY ", " fill(none)", true, "SelectStatement.Dimensions[].Dimension.Expr.VarRef.Val", false},
+	{"where-string", "SELECT f FROM m WHERE k = ", " AND j = 'tail'", false, "SelectStatement.Condition.BinaryExpr.LHS.BinaryExpr.RHS.StringLiteral.Val", false, false},
+	{"field-name", "SELECT ", ", g FROM m", true, "SelectStatement.Fields[].Field.Expr.VarRef.Val", false, false},
+	{"measurement", "SELECT f FROM ", " WHERE a = 1", true, "SelectStatement.Sources[].Measurement.Name", false, false},
+	{"password", "CREATE USER u WITH PASSWORD ", " WITH ALL PRIVILEGES", false, "CreateUserStatement.Password", false, false},
+	{"list-member", "CREATE SUBSCRIPTION s ON d.r DESTINATIONS ALL 'x', ", ", 'y'", false, "CreateSubscriptionStatement.Destinations[]", false, false},
+	{"tag-key", "SHOW TAG VALUES WITH KEY = ", " WHERE a = 'b'", true, "ShowTagValuesStatement.TagKeyExpr.StringLiteral.Val", false, false},
+	{"alias", "SELECT f AS ", " FROM m", true, "SelectStatement.Fields[].Field.Alias", false, false},
+	{"database", "DROP DATABASE ", "", true, "DropDatabaseStatement.Name", false, false},
+	{"retention-policy-segment", "SELECT f FROM db.", ".m", true, "SelectStatement.Sources[].Measurement.RetentionPolicy", false, false},
+	{"query-with-tail", "SELECT f FROM m WHERE k = ", "; DROP DATABASE x", false, "Query.Statements[].SelectStatement.Condition.BinaryExpr.RHS.StringLiteral.Val", true, false},
+	{"call-argument", "SELECT percentile(f, ", ") FROM m", false, "SelectStatement.Fields[].Field.Expr.Call.Args[].StringLiteral.Val", false, false},
+	{"tz", "SELECT f FROM m WHERE k = 'v' GROUP BY ", " fill(none)", true, "SelectStatement.Dimensions[].Dimension.Expr.VarRef.Val", false, false},
+	// the same slots with the neighbouring words glued to the quotes
+	{"measurement-tight", "SELECT f FROM ", "WHERE a = 1", true, "SelectStatement.Sources[].Measurement.Name", false, true},
+	{"alias-tight", "SELECT f AS ", "FROM m", true, "SelectStatement.Fields[].Field.Alias", false, true},
+	{"field-name-tight", "SELECT ", "AS g FROM m", true, "SelectStatement.Fields[].Field.Expr.VarRef.Val", false, true},
+	{"where-string-tight", "SELECT f FROM m WHERE k =", "AND j = 'tail'", false, "SelectStatement.Condition.BinaryExpr.LHS.BinaryExpr.RHS.StringLiteral.Val", false, true},
+	{"delete-tight", "DELETE FROM ", "WHERE host = 'a'", true, "DeleteSeriesStatement.Sources[].Measurement.Name", false, true},
 }
 
 func c06parse(t c06template, text string) (interface{}, error) {
@@ -82,22 +90,36 @@ func c06parse(t c06template, text string) (interface{}, error) {
 
 var c06base = map[string]string{}
 
-func c06baseDump(t c06template) string {
+// c06baseDump parses the template with a harmless value in the slot. A template that the code under test rejects
+// (or panics on) is a finding of its own, never a reason for the harness to stop.
+func c06baseDump(t c06template) (dump string, why string) {
 	q := "'PLACEHOLDER'"
 	if t.ident {
 		q = "PLACEHOLDER"
+		if t.tight {
+			q = `"PLACEHOLDER"`
+		}
 	}
-	ast, err := c06parse(t, t.pre+q+t.post)
+	var ast interface{}
+	var err error
+	if p, _ := try(func() { ast, err = c06parse(t, t.pre+q+t.post) }); p != nil {
+		return "", fmt.Sprintf("%q panics: %v", t.pre+q+t.post, p)
+	}
 	if err != nil {
-		panic("c06: template " + t.name + " does not parse: " + err.Error())
+		return "", fmt.Sprintf("%q is rejected: %v", t.pre+q+t.post, err)
 	}
-	return astx.Dump(astx.Denoted, ast)
+	return astx.Dump(astx.Denoted, ast), ""
 }
 
-func init() {
-	for _, t := range c06templates {
-		c06base[t.name] = c06baseDump(t)
-	}
+var c06baseOnce sync.Once
+var c06baseWhy = map[string]string{}
+
+func c06bases() {
+	c06baseOnce.Do(func() {
+		for _, t := range c06templates {
+			c06base[t.name], c06baseWhy[t.name] = c06baseDump(t)
+		}
+	})
 }
 
 type c06Case struct {
@@ -145,10 +167,18 @@ func c06eval(c c06Case) []ev.Finding {
 		}
 	}
 	// no break-out, whatever the string
+	c06bases()
 	for _, t := range c06templates {
+		if why := c06baseWhy[t.name]; why != "" {
+			fs = append(fs, ev.Finding{Sig: "template-with-plain-value-not-accepted:" + t.name, Witness: t.pre + "…" + t.post, Detail: why, Case: c, Rank: 0})
+			continue
+		}
 		q := qs
 		if t.ident {
 			q = qi
+		}
+		if t.tight && !strings.HasPrefix(q, `"`) && !strings.HasPrefix(q, "'") {
+			continue // written bare: the neighbours need a separator
 		}
 		text := t.pre + q + t.post
 		var ast interface{}
